@@ -676,9 +676,39 @@ def run(ck):
         dochists.append({"id": "hdoc%d" % i, "networks": nets,
                          "add": {"pop_size": rng.randint(0, 9), "instances": rng.choice([0, 0, 2, 5]), "conns": rng.randint(1, 4),
                                  "inputs": rng.randint(1, 3)}})
-    res = ck.impl("c19_impl.py", {"acc": [c for c, _, _ in cases], "docs": docs, "hsfi": hs,
-                                  "accseq": [{"cls": q["cls"], "steps": q["steps"]} for q in fixed_seq + seqs],
-                                  "dochist": dochists}, timeout=1500)
+    # NetworkBuilder driven through the handler API with the cell indices in every shape callers use
+    bconns = [{"id": j, "pre": a, "post": b, "pre_seg": sg, "pre_fract": fr, "post_seg": 0, "post_fract": 0.5, "wd": wd, "delay": 2.5, "weight": 0.5}
+              for j, (a, b, sg, fr, wd) in enumerate([(3, 4, 0, 0.5, False), (0, 49, 2, 0.25, False), (17, 17, 0, 0.5, True), (48, 1, 1, 0.75, True)])]
+    binputs = [{"id": j, "cell": cidx, "seg": sg, "fract": fr, "weight": w}
+               for j, (cidx, sg, fr, w) in enumerate([(3, 0, 0.5, 1.0), (0, 2, 0.25, 1.0), (49, 0, 0.75, 2.0), (20, 3, 0.5, 0.5)])]
+    forms = ["int", "numpy.int64", "numpy.int32", "float", "numpy.float64", "numpy.float32"]
+    bapi = [{"form": f, "conns": bconns, "inputs": binputs} for f in forms]
+    payload = {"acc": [c for c, _, _ in cases], "docs": docs, "hsfi": hs,
+               "accseq": [{"cls": q["cls"], "steps": q["steps"]} for q in fixed_seq + seqs],
+               "dochist": dochists, "builder_api": bapi}
+    res = ck.impl("c19_impl.py", payload, timeout=1500)
+    check_builder_api(ck, bapi, res["builder_api"])
+    # the interpreter's configuration is not an input: the deterministic part again under `python -O` and with another hash seed
+    nfix = len(fixed) + 40
+    sub = {"acc": payload["acc"][:nfix], "docs": docs[:4], "accseq": payload["accseq"][:len(fixed_seq) + 5], "dochist": dochists[:3],
+           "builder_api": bapi[:2], "hsfi": hs[:10]}
+    ref_sub = {"acc": res["acc"][:nfix], "docs": res["docs"][:4], "accseq": res["accseq"][:len(fixed_seq) + 5], "dochist": res["dochist"][:3],
+               "builder_api": res["builder_api"][:2], "hsfi": res["hsfi"][:10]}
+    for label, kw in (("python-O", {"pyflags": ["-O"]}), ("PYTHONHASHSEED=3-cwd=/", {"extra_env": {"PYTHONHASHSEED": "3"}, "cwd": "/"})):
+        try:
+            r2 = ck.impl("c19_impl.py", sub, timeout=600, **kw)
+        except Exception as e:  # noqa: BLE001
+            ck.witness("C19:interpreter-configuration:%s:raises" % label, "the implementation run under %s failed: %s" % (label, str(e)[-300:]),
+                       input={"configuration": label}, observed=str(e)[-300:])
+            continue
+        for part in sub:
+            for inp, a, b in zip(sub[part], ref_sub[part], r2[part]):
+                ck.tally("other-interpreter-configuration:" + label)
+                if json.dumps(a, sort_keys=True) != json.dumps(b, sort_keys=True):
+                    ck.witness("C19:interpreter-configuration:%s" % label, "under %s the answers (%s) differ from the default interpreter" % (label, part),
+                               input={"configuration": label, "part": part, "case": inp}, expected=a if part != "docs" else "(document)",
+                               observed=b if part != "docs" else "(document)")
+                    break
     check_sequences(ck, cases, fixed_seq, seqs, res)
     check_dochists(ck, dochists, res["dochist"])
     # ---------------------------------------------------------------- correspondence (kernel evaluates the translated programs)
@@ -829,6 +859,30 @@ def check_sequences(ck, cases, fixed_seq, seqs, res):
                 ck.witness("C19:history:%s" % q["steps"][k]["method"], "%s.%s(): an object used for earlier calls and then changed in place "
                            "answers differently from a fresh object with the same attributes" % (q["cls"], q["steps"][k]["method"]),
                            input={"cls": q["cls"], "steps (same object)": q["steps"][:k + 1]}, expected=fresh, observed=r)
+
+
+def check_builder_api(ck, bapi, results):
+    for q, r in zip(bapi, results):
+        ck.count(1, nontrivial_key=("builder_api", q["form"]))
+        ck.tally("builder-api:index-form=" + q["form"])
+        if r["error"]:
+            ck.witness("C19:builder-api:raises:%s" % q["form"], "NetworkBuilder fed cell indices of type %s: building / accessors / summary() "
+                       "raised %s" % (q["form"], r["error"]), input={"index form": q["form"], "connections": q["conns"][:2]}, observed=r["error"])
+            continue
+        want_c = [[pid, c["id"], {"t": "int", "v": c["pre"]}, {"t": "int", "v": c["post"]}, c["pre_seg"], c["pre_fract"], c["post_seg"], c["post_fract"]]
+                  for pid in ("pp", "ll", "pl") for wd in (False, True) for c in q["conns"] if bool(c["wd"]) == wd]
+        want_i = [[lid, i["id"], {"t": "int", "v": i["cell"]}, i["seg"], i["fract"]] for lid in ("il_plain", "il_listed")
+                  for w1 in (True, False) for i in q["inputs"] if (i["weight"] == 1.0) == w1]
+        for kind, got, want in (("connection", r["connections"], want_c), ("input", r["inputs"], want_i)):
+            if got != want:
+                k = next((j for j, (g, w) in enumerate(zip(got, want)) if g != w), None)
+                ck.witness("C19:builder-api:%s:%s" % (kind, q["form"]), "accessors of the %ss NetworkBuilder built from cell indices of type %s "
+                           "differ from the indices / locations handed in" % (kind, q["form"]), input={"index form": q["form"]},
+                           expected=want[k] if k is not None else len(want), observed=got[k] if k is not None else len(got))
+        ps = parse_summary(r["summary"] or "")
+        if not ps or ps[0].get("connections") != 3 * len(q["conns"]) or ps[0].get("inputs") != 2 * len(q["inputs"]):
+            ck.witness("C19:builder-api:summary:%s" % q["form"], "summary() of the built document", input={"index form": q["form"]},
+                       expected=[3 * len(q["conns"]), 2 * len(q["inputs"])], observed=ps[:1])
 
 
 def check_dochists(ck, dochists, results):
